@@ -493,6 +493,9 @@ func (parser *Parser) ParseExpression(depth int) (res Sexp, err error) {
 				}
 			}
 		}
+		if tok.str == "nil" {
+			return SexpNull, nil
+		}
 		return env.MakeSymbol(tok.str), nil
 	case TokenSymbolColon:
 		sym := env.MakeSymbol(tok.str)
